@@ -340,6 +340,9 @@ def eval_case(c):
         if agree2 <= FD_AGREE * (1 + np.abs(want2).max()):
             compare("second evaluation sensitivity(theta')", run("sensitivity", lambda: obj.sensitivity(th2, method=meth)), want2)
         compare("sensitivity(theta, full_output=True)[0]", run("sensitivity(full_output)", lambda: obj.sensitivity(th, full_output=True)[0]), want)
+        # the option combination (a named integrator together with the full output) is the same gradient
+        compare("sensitivity(theta, full_output=True, method='lsoda')[0]",
+                run("sensitivity(full_output, lsoda)", lambda: obj.sensitivity(th, full_output=True, method="lsoda")[0]), want)
         J = run("jac", lambda: obj.jac(th))
         if J is not None:
             with quiet():
@@ -363,6 +366,8 @@ def eval_case(c):
         compare("sensitivityIV(theta_x0%s)" % ("" if meth is None else ", method='%s'" % meth),
                 run("sensitivityIV", lambda: obj.sensitivityIV(v, method=meth)), want)
         compare("sensitivityIV(theta_x0, full_output=True)[0]", run("sensitivityIV(full_output)", lambda: obj.sensitivityIV(v, full_output=True)[0]), want)
+        compare("sensitivityIV(theta_x0, full_output=True, method='lsoda')[0]",
+                run("sensitivityIV(full_output, lsoda)", lambda: obj.sensitivityIV(v, full_output=True, method="lsoda")[0]), want)
         # a second evaluation of the SAME object at other free values (what every optimiser does): nothing may be kept
         # from the first one
         v2 = np.array(v, dtype=float) * 1.07 + 0.013
